@@ -59,9 +59,18 @@ def enumerate_pipeline_models(pipe, coor=None, vs=None):
                 for couple in enumerate_pipeline_models(model, coor + (i,)):
                     yield couple
         elif isinstance(pipe, ColumnTransformer):
-            for i, (_, fitted_transformer, column) in enumerate(pipe.transformers):
+            # once fitted, a ColumnTransformer works with clones of
+            # its transformers stored in transformers_
+            fitted = {
+                name: model
+                for name, model, _ in getattr(pipe, "transformers_", [])
+                if name != "remainder"
+            }
+            for i, (name, transformer, column) in enumerate(pipe.transformers):
+                if not isinstance(transformer, str):
+                    transformer = fitted.get(name, transformer)
                 for couple in enumerate_pipeline_models(
-                    fitted_transformer, coor + (i,), column
+                    transformer, coor + (i,), column
                 ):
                     yield couple
         elif isinstance(pipe, FeatureUnion):
